@@ -1876,13 +1876,25 @@ Convex_hull/Monotone_chain>`_
     pty = total_hull[:, 1]
 
     if min_separation is not None:
-        # remove points that are too close to each other:
-        idx = list(range(np.size(ptx)))
-        for k in range(np.size(ptx) - 2, 0, -1):
-            if np.abs(ptx[k] - ptx[k + 1]) <= min_separation and \
-               np.abs(pty[k] - pty[k + 1]) <= min_separation:
-                idx.pop(k)
+        # remove vertices that are too close to the next vertex that is kept
+        # (the closing vertex and the first vertex are always kept):
+        npts = np.size(ptx)
+        idx = [npts - 1]
+        for k in range(npts - 2, 0, -1):
+            j = idx[-1]
+            if np.abs(ptx[k] - ptx[j]) <= min_separation and \
+               np.abs(pty[k] - pty[j]) <= min_separation:
+                continue
+            idx.append(k)
 
+        # ... and vertices that are too close to the first vertex:
+        while len(idx) > 1 and \
+                np.abs(ptx[idx[-1]] - ptx[0]) <= min_separation and \
+                np.abs(pty[idx[-1]] - pty[0]) <= min_separation:
+            idx.pop()
+
+        idx.append(0)
+        idx.reverse()
         ptx = ptx[idx]
         pty = pty[idx]
 
